@@ -739,7 +739,7 @@ fn lock_universe(universe: &str, obs: &Arc<Obs>, ops: Vec<LockOp>, out: &mut dyn
         if hs.iter().all(|h| h.is_finished()) { break; }
         let now = progress.load(std::sync::atomic::Ordering::SeqCst);
         if now == last { stalled_ms += 50; } else { stalled_ms = 0; last = now; }
-        if stalled_ms >= 10_000 { deadlock = true; break; }
+        if stalled_ms >= 30_000 { deadlock = true; break; }
     }
     *obs.lock_log.lock().unwrap() = false;
     let done = progress.load(std::sync::atomic::Ordering::SeqCst);
@@ -777,7 +777,7 @@ fn lock_universe(universe: &str, obs: &Arc<Obs>, ops: Vec<LockOp>, out: &mut dyn
     }
     let res = json!({"universe": universe, "programs": programs.len(), "programs_solo": solo, "stress_threads": stress_threads,
                      "stress_ops_done": done, "stress_ops_planned": stress_threads * stress_iters,
-                     "no_progress_for_10s": deadlock, "stuck": stuck});
+                     "no_progress_for_30s": deadlock, "stuck": stuck});
     if deadlock {
         // threads are stuck: leave them behind and exit the process with the result printed
         out.flush().unwrap();
